@@ -80,12 +80,22 @@ def strip_indices(label, keepco):
     i = base.rfind("=")
     if i > -1 and base[i + 1:].isdigit():
         base = base[:i]
+    head = ""
+    if base.endswith("'") and len(base) > 1:
+        head, base = "'", base[:-1]
+        i = base.rfind("-")
+        if i > -1 and base[i + 1:].isdigit():
+            co = base[i + 1:]
+            base = base[:i]
+        i = base.rfind("=")
+        if i > -1 and base[i + 1:].isdigit():
+            base = base[:i]
     out = base
     if gf != "--":
         out += "-" + gf
     if keepco and co:
         out += "-" + co
-    return out
+    return out + head
 
 
 def ref_delete_traces(sent, params):
@@ -197,6 +207,8 @@ def gen_sentence(rng, tier, sid, traces):
                 c[0] += "=%d" % rng.randint(1, 3)
             if rng.random() < 0.4:
                 c[0] += "-%d" % rng.randint(1, 4)
+            if rng.random() < 0.15:
+                c[0] += "'"                      # head marker, allowed after the indices
     return s
 
 
